@@ -12,6 +12,8 @@
 import DymVerif.Props.C05
 import DymVerif.Lemmas.PacketsLinkX
 import DymVerif.Lemmas.PacketsFulX
+import DymVerif.Lemmas.PacketsTgtX
+import DymVerif.Props.C04Persist
 namespace DymVerif.C05X
 open DymVerif DymVerif.Keys DymVerif.Packets
 
@@ -159,6 +161,43 @@ theorem fulfiller_persists : ∀ (ops : List Op) (s : St), (∀ o ∈ ops, Bound
     rw [e] at ho'
     exact fulfiller_persists rest (step s op).1 (fun x hx => hb x (List.mem_cons_of_mem _ hx)) (invAll_step op hbo h)
       o ho' hs hf hrest
+
+-- ================================================================== the redirected packet is frozen
+
+/-- **beneficiary_persists (one operation)** — a pending packet that a fulfilment has redirected
+    (`orig` set: `target` is the fulfiller / the LP) is, after any operation, still stored as the very
+    same record — same target, same original target, same amount — unless the operation is its own
+    accepted finalization or a hard fork whose range contains it.  So the packet names the party the
+    fulfilment redirected it to until it is finalized or reverted. -/
+theorem beneficiary_persists_step (s : St) (op : Op) (hb : BoundedOp op) (h : InvAll s) (p : Packet)
+    (hp : p ∈ s.packets) (hs : p.status = .pending) (ho : p.orig.isSome = true) :
+    p ∈ (step s op).1.packets ∨ C04.FinalizesKey s op (pkey p) ∨ C04.ForksKey op (pkey p) := by
+  rcases C04.pending_persists s op hb h.i4 h.idx p hp hs with h1 | h1 | h1
+  · obtain ⟨p', hp', hk, hs', _⟩ := h1
+    have e : p' = p := redirected_frozen_step op hb h hp ho hp' hs' hk
+    exact Or.inl (e ▸ hp')
+  · exact Or.inr (Or.inl h1)
+  · exact Or.inr (Or.inr h1)
+
+/-- **beneficiary_persists** — through any history that neither finalizes the packet nor forks its
+    rollapp below its proof height, a redirected pending packet is unchanged: in the final state it still
+    names the same target -/
+theorem beneficiary_persists : ∀ (ops : List Op) (s : St), (∀ o ∈ ops, BoundedOp o) → InvAll s →
+    ∀ p ∈ s.packets, p.status = .pending → p.orig.isSome = true →
+    (∀ (pre : List Op) (o : Op) (post : List Op), ops = pre ++ o :: post →
+        ¬ C04.FinalizesKey (run s pre) o (pkey p) ∧ ¬ C04.ForksKey o (pkey p)) →
+    p ∈ (run s ops).packets
+  | [], _, _, _, _, hp, _, _, _ => hp
+  | o :: rest, s, hb, h, p, hp, hs, ho, hno => by
+    have hbo := hb o (List.mem_cons_self ..)
+    obtain ⟨n1, n2⟩ := hno [] o rest rfl
+    rcases beneficiary_persists_step s o hbo h p hp hs ho with h1 | h1 | h1
+    · exact beneficiary_persists rest (step s o).1 (fun x hx => hb x (List.mem_cons_of_mem _ hx)) (invAll_step o hbo h)
+        p h1 hs ho (by
+          intro pre o' post e
+          exact hno (o :: pre) o' post (by rw [e]; rfl))
+    · exact absurd h1 n1
+    · exact absurd h1 n2
 
 -- ================================================================== non-vacuity
 
